@@ -1802,9 +1802,21 @@ func g23BreakOnlyWithoutProgress(r *Repo, rep *Report) {
 	}
 	par := parents(fi.Decl)
 	n, good := 0, 0
+	// the equality of two different variables that both hold (a rendering of) the package's undefined calls: what this pass
+	// found and what the pass before recorded — whatever the two are called
+	uinfo := fi.Pkg.TypesInfo
+	uvars := undefDerived(uinfo, fi.Decl.Body)
 	isEq := func(e ast.Expr) bool {
 		be, ok := unparen(e).(*ast.BinaryExpr)
-		return ok && be.Op == token.EQL && strings.Contains(strings.ToLower(exprStr(be.X)), "undefined") && strings.Contains(strings.ToLower(exprStr(be.Y)), "undefined")
+		if !ok || be.Op != token.EQL {
+			return false
+		}
+		if strings.Contains(strings.ToLower(exprStr(be.X)), "undefined") && strings.Contains(strings.ToLower(exprStr(be.Y)), "undefined") {
+			return true
+		}
+		xi, ok1 := unparen(be.X).(*ast.Ident)
+		yi, ok2 := unparen(be.Y).(*ast.Ident)
+		return ok1 && ok2 && uinfo.Uses[xi] != uinfo.Uses[yi] && uvars[uinfo.Uses[xi]] && uvars[uinfo.Uses[yi]]
 	}
 	var loopPos token.Pos
 	ast.Inspect(fi.Decl.Body, func(m ast.Node) bool {
@@ -1832,6 +1844,9 @@ func g23BreakOnlyWithoutProgress(r *Repo, rep *Report) {
 				switch {
 				case cond != nil && isEq(cond):
 					good++
+					rep.pass("G23")
+				case cond != nil && g23NothingGenerated(r, fi, cond):
+					// `if !generated { break }`: the loop's other sound exit (see g23HeaderCondition), written as a break
 					rep.pass("G23")
 				case cond != nil && nodeHas(cond, func(q ast.Node) bool { e, ok := q.(ast.Expr); return ok && isEq(e) }):
 					be, _ := unparen(cond).(*ast.BinaryExpr)
@@ -1965,4 +1980,108 @@ func g23HeaderCondition(r *Repo, rep *Report, fi *FuncInfo) {
 func isEmptyString(info *types.Info, e ast.Expr) bool {
 	tv, ok := info.Types[e]
 	return ok && tv.Value != nil && tv.Value.ExactString() == `""`
+}
+
+
+// undefDerived: the local variables whose value is computed from the package's undefined calls (the field `undefined` of the
+// package generator), directly or through other such variables.
+func undefDerived(info *types.Info, body *ast.BlockStmt) map[types.Object]bool {
+	undef := map[types.Object]bool{}
+	mentions := func(e ast.Expr) bool {
+		found := false
+		ast.Inspect(e, func(n ast.Node) bool {
+			switch x := n.(type) {
+			case *ast.SelectorExpr:
+				if x.Sel.Name == "undefined" {
+					found = true
+				}
+			case *ast.Ident:
+				if undef[info.Uses[x]] {
+					found = true
+				}
+			}
+			return true
+		})
+		return found
+	}
+	for changed := true; changed; {
+		changed = false
+		ast.Inspect(body, func(n ast.Node) bool {
+			switch x := n.(type) {
+			case *ast.AssignStmt:
+				if len(x.Lhs) != len(x.Rhs) {
+					return true
+				}
+				for i, l := range x.Lhs {
+					var o types.Object
+					switch lx := l.(type) {
+					case *ast.Ident:
+						o = objOf(info, lx)
+					case *ast.IndexExpr:
+						if id, ok := ast.Unparen(lx.X).(*ast.Ident); ok {
+							o = objOf(info, id)
+						}
+					}
+					if o != nil && !undef[o] && mentions(x.Rhs[i]) {
+						undef[o] = true
+						changed = true
+					}
+				}
+			case *ast.RangeStmt:
+				// for _, u := range <U> { … }: the element is one of them
+				if mentions(x.X) {
+					for _, kv := range []ast.Expr{x.Key, x.Value} {
+						if id, ok := kv.(*ast.Ident); ok && kv != nil {
+							if o := objOf(info, id); o != nil && !undef[o] {
+								undef[o] = true
+								changed = true
+							}
+						}
+					}
+				}
+			}
+			return true
+		})
+	}
+	return undef
+}
+
+
+// g23NothingGenerated: the condition is the negation of a variable that only ever holds the result of (*pkg).Generate.
+func g23NothingGenerated(r *Repo, fi *FuncInfo, cond ast.Expr) bool {
+	info := fi.Pkg.TypesInfo
+	gen := r.lookup("derive.(*pkg).Generate")
+	e, neg := stripNot(cond)
+	id, ok := e.(*ast.Ident)
+	if !ok || !neg || gen == nil {
+		return false
+	}
+	v := info.Uses[id]
+	fromGen, other := false, false
+	ast.Inspect(fi.Decl.Body, func(m ast.Node) bool {
+		as, ok := m.(*ast.AssignStmt)
+		if !ok {
+			return true
+		}
+		for i, l := range as.Lhs {
+			lid, ok := l.(*ast.Ident)
+			if !ok || objOf(info, lid) != v {
+				continue
+			}
+			if len(as.Rhs) == 1 && i == 0 {
+				if c, isCall := ast.Unparen(as.Rhs[0]).(*ast.CallExpr); isCall && callee(info, c) == gen.Fn {
+					fromGen = true
+					continue
+				}
+			}
+			if i < len(as.Rhs) && len(as.Rhs) == len(as.Lhs) {
+				if tv, has := info.Types[as.Rhs[i]]; has && tv.Value != nil {
+					continue // a constant initial value
+				}
+			}
+			other = true
+		}
+		return true
+	})
+	return fromGen && !other
 }
